@@ -448,6 +448,10 @@ def generate(rng, tier, i):
                           "new": {kk: (vv[row] if isinstance(vv, list) else vv) for kk, vv in new_col.items()},
                           "via": rng.choice(["same_block", "block_copy", "builder"])}
     n_saves = sum(o["op"] in ("save", "save_blocks") for o in ops)
+    if n_saves >= 1 and rng.random() < 0.15:
+        # Ctrl-C / cancellation inside one save, then the program carries on
+        scn["interrupt"] = {"at_save": rng.randrange(1, n_saves + 1), "frac": rng.random(),
+                            "where": rng.choice(["line", "line", "write"])}
     if n_saves >= 2 and rng.random() < 0.25:
         # a second caller saves another (earlier saved) object between two lines of this save
         at = rng.randrange(2, n_saves + 1)
@@ -596,6 +600,7 @@ class CifEngine(Engine):
             scn.update(sink="mem", faults={"mode": "none"})
             scn.pop("inplace", None)
             scn["interleave"] = {"at_save": n_saves, "other_save": n_saves - 1, "sweep": [i, self.SWEEP_RUNS]}
+            scn["interrupt"] = {"at_save": n_saves, "sweep": [i, self.SWEEP_RUNS]}
             return scn
         scn = generate(rng, tier, i)
         if rng.random() < 0.1:
@@ -963,6 +968,9 @@ class CifEngine(Engine):
         il = scn.get("interleave")
         if il and il["at_save"] == n and not ctx.violations:
             self._interleaved_save(scn, ctx, op, lib, mod, cif, il, n)
+        it = scn.get("interrupt")
+        if it and it["at_save"] == n and not ctx.violations:
+            self._interrupted_save(scn, ctx, op, lib, mod, cif, it, n)
         if target is not None and target != n:
             return
         # --- fault family on this save: failed saves, then the builder is saved again
@@ -1119,6 +1127,58 @@ class CifEngine(Engine):
                 self._interleave_once(ctx, op, other, lib, mod, cif, il, n, where, at, totals[where], prefixes)
         finally:
             seams.CLOCK.deltas = deltas
+
+    def _interrupted_save(self, scn, ctx, op, lib, mod, cif, it, n):
+        """The caller is interrupted (Ctrl-C, cancelled task) at one scheduling point of this save;
+        the process and the objects survive.  Saving the same object again, and afterwards every
+        other save of the program, must give complete documents with what was supplied."""
+        prefixes = (cif.__file__,)
+        counter = seams.Preemptor(prefixes, {})
+        counter.early_k = 6
+        csink = seams.SimStringIO(ctx=ctx)
+        _, e0 = counter.run(lambda: self._save_call(op, lib, csink, cif))
+        if e0 is not None:
+            return
+        totals = {"line": counter.ordinal, "write": csink.sim_writes}
+        if it.get("sweep"):
+            part, of = it["sweep"]
+            pts = [("line", k) for k in counter.early] + [("write", k) for k in range(totals["write"])]
+            pts = [pt for m, pt in enumerate(pts) if m % of == part]
+            ctx.count("interruption_points_enumerated", len(pts))
+        else:
+            where = it.get("where", "line")
+            total = totals[where]
+            pts = [(where, it["at"] if "at" in it else (min(total - 1, int(it["frac"] * total)) if total else 0))]
+        for where, at in pts:
+            if ctx.violations:
+                break
+            kind = {"line": "interrupt_at_line", "write": "interrupt_in_write"}[where]
+            ctx.fault_configured(kind)
+            try:
+                if where == "write":
+                    self._save_call(op, lib, seams.SimStringIO(ctx=ctx, yield_at={at: seams.interrupt_now}), cif)
+                else:
+                    seams.Preemptor(prefixes, {at: seams.interrupt_now}).run(
+                        lambda: self._save_call(op, lib, seams.SimStringIO(ctx=ctx), cif))
+                ctx.probe("interruption_point_not_reached")
+                continue
+            except seams.SimInterrupt:
+                pass
+            ctx.fault_fired(kind)
+            ctx.log("interrupted", where, at, totals[where])
+            hint = {"int_where": where, "int_at": at}
+            n0 = len(ctx.violations)
+            exp2 = self._expected_doc(op, mod)
+            s2 = seams.SimStringIO(ctx=ctx)
+            _, e2 = self._save_call(op, lib, s2, cif)
+            if e2 is not None:
+                ctx.violate("save_raised", f"after an interruption of save #{n} at {where} {at}/{totals[where]}, saving "
+                            f"again raised {e2}", kind="save_after_interrupt_raised", exc=e2.name,
+                            hazards=sorted(self._hz), found_by="interruption", _hint=hint)
+            else:
+                self._judge(ctx, s2.getvalue(), exp2, f"save #{n} again after an interruption at {where} {at}/{totals[where]}")
+            for v in ctx.violations[n0:]:
+                v.setdefault("hint", {}).update(hint)
 
     def _interleave_once(self, ctx, op, other, lib, mod, cif, il, n, where, at, total, prefixes):
         kind = {"line": "preempt_in_save", "site": "preempt_at_source_line", "write": "preempt_in_write"}[where]
@@ -1473,6 +1533,15 @@ class CifEngine(Engine):
         if s.get("interleave"):
             c = copy.deepcopy(s)
             del c["interleave"]
+            yield c
+        if s.get("interrupt") and "int_where" in hint and (
+                s["interrupt"].get("sweep") or s["interrupt"].get("at") != hint["int_at"]):
+            c = copy.deepcopy(s)
+            c["interrupt"] = {"at_save": s["interrupt"]["at_save"], "where": hint["int_where"], "at": hint["int_at"]}
+            yield c
+        if s.get("interrupt"):
+            c = copy.deepcopy(s)
+            del c["interrupt"]
             yield c
         if s.get("inplace"):
             c = copy.deepcopy(s)
